@@ -30,6 +30,9 @@ def main():
     for sid in args:
         d = f"{ROOT}/seeded/{sid}"
         meta = json.load(open(f"{d}/meta.json")) if os.path.exists(f"{d}/meta.json") else {}
+        if meta.get("active") is False:
+            print(sid, "skipped: " + meta.get("status", "inactive")[:80])
+            continue
         todo = props or claimed
         res = {"seed": sid, "property": meta.get("property"), "tier": tier, "checks": {}}
         r = sh(f"git -C /repo apply {d}/patch.diff")
@@ -69,6 +72,9 @@ def summarise():
         meta = json.load(open(f"{d}/meta.json")) if os.path.exists(f"{d}/meta.json") else {}
         fired = [p for p, c in res.get("checks", {}).items() if c["violation"]]
         own = meta.get("property")
+        if meta.get("active") is False:
+            rows.append((sid, own, meta.get("summary", ""), "(obsolete, see meta.json)", "-"))
+            continue
         rows.append((sid, own, meta.get("summary", ""), "yes" if own in fired else "NO", ", ".join(fired) or "-"))
     with open(f"{ROOT}/seeded/RESULTS.md", "w") as f:
         f.write("# Seeded breaking changes: which checks report them\n\n")
